@@ -3,7 +3,7 @@
     a pure function of the request) interleaved with configuration reloads.  The order of the list
     is the lock order.  Also the executable property predicate [P_C09] over observation traces. *)
 From Coq Require Import ZArith List Bool NArith.
-From HK Require Import Model.NonceCache Model.Hmac Model.Reload.
+From HK Require Import Model.NonceCache Model.Hmac Model.ReloadAuth.
 Import ListNotations.
 Open Scope Z_scope.
 
